@@ -135,7 +135,7 @@ func c06(c *Ctx) {
 					if _, h := hasFact(fs, NotNil(OrV(ParamV("compressor"), ParamV("dc")))); h {
 						nT++
 					}
-				} else if b, isB := e.(*ssa.BinOp); isB && b.Op == token.NEQ && ConstNil(b.Y) && OrV(ParamV("compressor"), ParamV("dc"))(b.X) {
+				} else if BinOpV(token.NEQ, OrV(ParamV("compressor"), ParamV("dc")), ConstNil)(e) {
 					nO++
 				}
 			}
